@@ -65,6 +65,19 @@ DirtyCopy ==
       dirty \o <<PUSH1, 40, PUSH1, 1, PUSH0, MCOPY>>,
       dirty \o <<PUSH1, IF dl >= 5 THEN dl - 5 ELSE 0, CALLDATALOAD>>}
 
+(* zero-length ranges at any offset are no-ops: the hash of the empty string, memory and its size unchanged, *)
+(* an empty result                                                                                            *)
+ZeroLen ==
+  LET offs == {<<PUSH0>>, <<PUSH1 + 4, 1, 0, 0, 0, 0>>, Push9(0), <<PUSH1 + 7>> \o [i \in 1..8 |-> 255], Push32Max,
+               <<PUSH32, 128>> \o [i \in 1..31 |-> 0]}
+  IN UNION {{<<PUSH0>> \o o \o <<SHA3>>,
+             <<PUSH0, PUSH0>> \o o \o <<CALLDATACOPY, MSIZE>>,
+             <<PUSH0>> \o o \o <<PUSH0, CALLDATACOPY>>,
+             <<PUSH0>> \o o \o o \o <<MCOPY, MSIZE>>,
+             <<PUSH0, PUSH0>> \o o \o <<RETURNDATACOPY>>,
+             <<PUSH0>> \o o \o <<RETURN>>,
+             <<PUSH0>> \o o \o <<REVERT>>} : o \in offs}
+
 Macros ==
   (IF Len(st.stack) < 8 THEN {PushOf(v) : v \in Vals} ELSE {}) \cup
   {<<op>> : op \in {o \in WordOps : Has(Pops(o)) /\ (o = OpEXP => Len(Top(2)) <= 1)}} \cup
@@ -81,7 +94,7 @@ Macros ==
      THEN {<<PUSH1, Len(code) + 5, JUMP, PUSH1, JUMPDEST, JUMPDEST>>,                 \* jump over a fake JUMPDEST
            <<PUSH1, Len(code) + 3, JUMP, JUMPDEST>>} \cup
           (IF Has(1) THEN {<<PUSH1, Len(code) + 6, JUMPI, PUSH1 + 1, JUMPDEST, JUMPDEST, JUMPDEST>>} ELSE {}) \cup
-          NotTaken \cup DirtyCopy
+          NotTaken \cup DirtyCopy \cup ZeroLen
      ELSE {})
 
 GenInit == /\ code = <<>> /\ data \in GenDatas /\ st = InitState /\ status = "run" /\ jumped = FALSE /\ ret = <<>>
